@@ -14,7 +14,8 @@ from .c01 import reaction_sites
 EXPLANATION = (
     "R0 (shared with C01.R2/R3): every reaction adds the identical k*prod(y) monomial once per product occurrence and subtracts "
     "it once per reactant occurrence, unconditionally -- so sum_i w_i*ydot_i = sum_react k*prod(y)*(sum_products w - sum_reactants w), "
-    "which vanishes for any weight w (element count, charge) a balanced reaction preserves. R1 GetElementAbund sums "
+    "which vanishes for any weight w (element count, charge) a balanced reaction preserves; no species is dropped from a reactant / product "
+    "list for being falsy (Species defines no __bool__/__len__). R1 GetElementAbund sums "
     "count(spec, element)*y[IDX_spec] over the same unfiltered network.species, guarded by the IDX_ELEM_ macro of the loop's own "
     "element, exactly as the macro header defines it. R2 every way two species can be identified (each disjunct of Species.__eq__) "
     "forces equal composition and charge: same name, or ice with equal basename+charge+group, or grains (no elements) with equal "
@@ -46,6 +47,8 @@ def check(ctx):
     ctx.absorb(c01.check, "R0", only=lambda o: o.rule in ("R1", "R2", "R3", "R4", "R5", "R8"))
     _r1(ctx)
     _r2(ctx)
+    # a species is never dropped from a reactant / product list for being "empty" (shared with C01.R6)
+    c01.species_truthiness(ctx, "R0")
     # R4: one ODE variable per species -- the identifier IDX_<alias> is an injective function of the species (rule shared with C09.R6)
     from . import c09
     ctx.absorb(lambda sub: c09._alias_rule(sub, package(sub.tree)), "R4", only=lambda o: o.key.startswith("Species.alias"))
@@ -439,6 +442,7 @@ MUTANTS = [
     {"name": "electron-hash-name", "file": SPECIES, "old": '            hash("Electron")\n            if self.is_electron', "new": '            hash(self.name)\n            if self.is_electron', "rules": ["R3"]},
 ]
 MUTANTS += [
+    {"name": "species-len-makes-electron-falsy", "file": SPECIES, "old": "    def __hash__(self) -> int:\n", "new": "    def __len__(self) -> int:\n        return len(self.element_count)\n\n    def __hash__(self) -> int:\n", "rules": ["R0"]},
     {"name": "electron-case-sensitive", "file": SPECIES, "old": 'return self.name.upper() in ["E", "E-"]', "new": 'return self.name in ["E", "E-"]', "rules": ["R3"]},
     {"name": "ice-eq-tuple-without-charge", "file": SPECIES, "old": "                    and self.surface_group == o.surface_group\n                    and self.charge == o.charge\n                    and self.basename == o.basename\n", "new": "                    and (self.surface_group, self.basename) == (o.surface_group, o.basename)\n", "rules": ["R2"]},
     {"name": "matches-collected-in-dict", "file": SPECIES, "old": '        for s, e, n in zip(starts, ends, matchnames):\n            # if there is replacement, save the element name with the new value\n            n = self._replacement.get(n, n)\n            if e != s:\n                substring = parsename[e:s]\n                if substring.isdigit():\n                    self._add_element_count(n, int(parsename[e:s]))\n                else:\n                    raise RuntimeError(\n                        f\'Unrecongnized name: "{substring}" in "{self.name}"\'\n                    )\n            else:\n                if n in symbols:\n                    self._add_element_count(n, 0)\n                elif n:\n                    self._add_element_count(n, 1)\n', "new": '        # Go through the name once: check everything between two matches is a\n        # number before anything is saved in the instance, and build the name\n        # with the replaced element names at the same time\n        newname = ""\n        components = {}\n        for s, e, n in zip(starts, ends, matchnames):\n            # if there is replacement, save the element name with the new value\n            n = self._replacement.get(n, n)\n            substring = parsename[e:s]\n            if substring and not substring.isdigit():\n                raise RuntimeError(\n                    f\'Unrecongnized name: "{substring}" in "{self.name}"\'\n                )\n            newname = f"{newname}{n}{substring}"\n            if n:\n                components[n] = int(substring) if substring else int(n not in symbols)\n\n        for n, count in components.items():\n            self._add_element_count(n, count)\n', "rules": ["R6"]},
